@@ -481,7 +481,8 @@ pub fn canon(ty: &Ty, next: &mut u32) -> Vec<Node> {
                     VarTy::Newtype(t) => {
                         for p in canon(t, next) {
                             out.push(Node::map(vec![(Node::plain(vn), p.clone())]));
-                            if !is_nullish(&p) && p.tag.is_none() {
+                            // (also a null payload: `!N ~` is N(None) for an Option payload)
+                            if p.tag.is_none() {
                                 out.push(p.tagged(&format!("!{}", vn)));
                             }
                         }
